@@ -190,6 +190,9 @@ def timeline_value_record(tl):
     """argument of on(): a configuration (builder) or MergedTimeline::of([builds...])"""
     if tl[0] == "agg" and tl[1] == "adt" and tl[2].endswith("TimelineConfiguration"):
         return ("single", timeline_record(tl))
+    if tl[0] == "call" and "TimelineBuilder" in tl[1] and tl[1].endswith(">::build"):
+        # a built timeline and its builder are the same TimelineOrBuilder value (generated impls, checked by C17/G9)
+        return ("single", timeline_record(tl[2][0]))
     if tl[0] == "call" and tl[1].endswith("MergedTimeline::<T>::of"):
         a = tl[2][0]
         if a[0] == "agg" and a[1] == "array":
